@@ -618,6 +618,11 @@ class CallMixin:
         if isinstance(a.t, (TSet, TMap)):
             st, d = self.domain_of(st, a)
             return self.bag_to_seq(st, Bag(d.kt, d.dom, d.elem, d.et))
+        if isinstance(a.t, TOpaque):
+            self.note_assumed("list()/tuple() of an opaque iterable: a sequence of unknown length and elements")
+            self.opq_may_raise(st, "iteration over a value of unknown type")
+            r_ = fresh(TSeq(TOpaque("unk")), "lst")
+            return st.assume(r_.zs[0] >= 0), r_
         raise EngineError(f"list() of {a.t}")
 
     def _dom_to_seq(self, st, d):
@@ -864,6 +869,19 @@ class CallMixin:
             self.note_assumed(f"method {name} on opaque {t.nm}")
             self.opq_may_raise(st, f"method {name} of a value of unknown type")
             yield st, fresh(TOpaque("unk"), "mres")
+            return
+        if h is None and isinstance(t, TStr):
+            # string methods without a model: some string / bool / list of strings
+            self.note_assumed(f"str.{name}() (unknown result)")
+            if name.startswith("is") or name in ("startswith", "endswith"):
+                yield st, mk_bool(z3.Bool(fresh_name("strp")))
+            elif name in ("split", "rsplit", "splitlines", "partition", "rpartition"):
+                r_ = fresh(TSeq(STR), "parts")
+                yield st.assume(r_.zs[0] >= 0), r_
+            elif name in ("find", "rfind", "index", "count"):
+                yield st, fresh(INT, "stri")
+            else:
+                yield st, fresh(STR, "strm")
             return
         if h is None:
             raise EngineError(f"unsupported method {name} on {t}: {ast.unparse(node)}")
